@@ -232,7 +232,8 @@ func c07Exec(t *testing.T, w *C07W, sc SchedCfg, base *c07Transcript, rec *c07Tr
 		outs := make([]*c07Out, len(w.Reqs))
 		cur := -1 // request in flight
 		inflight := false
-		fired := map[int]int{} // request index of the fault -> request index in flight when it fired (-1: between)
+		fired := map[int]int{}    // request index of the fault -> request index in flight when it fired (-1: between)
+		phase := map[int]string{} // request index -> "not-entered" | "entered" | "consumed" at the moment a during-fault fired
 		snap := func() ([]int, []int) {
 			a, b := make([]int, n), make([]int, n)
 			for k, p := range plugs {
@@ -303,7 +304,13 @@ func c07Exec(t *testing.T, w *C07W, sc SchedCfg, base *c07Transcript, rec *c07Tr
 							_, done := fired[i]
 							return !done && cur == i && inflight
 						},
-						Fire: func(int) { fired[i] = i; applyFault(i, f) }})
+						Fire: func(int) {
+							fired[i] = i
+							// where is the victim in this request at the moment of the fault? (the scheduler
+							// goroutine runs this at a quiescent point, so the history is stable)
+							phase[i] = c07Phase(h, w, f.Victim, id)
+							applyFault(i, f)
+						}})
 				}
 				t0 := time.Now()
 				o.Resp, o.Err = h.Call(rq.Event, pod, ctr, nil)
@@ -330,7 +337,7 @@ func c07Exec(t *testing.T, w *C07W, sc SchedCfg, base *c07Transcript, rec *c07Tr
 			res.Violate("C07.deadlock", "the run did not finish: %v; pending %v", err, e.S.Pending())
 			return
 		}
-		c07Oracle(res, w, h, plugs, outs, fired, base, treq)
+		c07Oracle(res, w, h, plugs, outs, fired, phase, base, treq)
 	})
 }
 
@@ -424,7 +431,43 @@ func isNilResp(resp any) bool {
 	return false
 }
 
-func c07Oracle(res *Result, w *C07W, h *H1, plugs []*Plug, outs []*c07Out, fired map[int]int, base *c07Transcript, treq time.Duration) {
+// c07Phase tells how far the victim has got in request id: "not-entered" (its handler has not been
+// entered), "consumed" (a later plugin's handler has already been entered for the same request, so
+// the runtime has the victim's reply), or "entered" (in between).
+func c07Phase(h *H1, w *C07W, victim int, id string) string {
+	name := w.Plugins[victim].Name
+	entered, later := false, false
+	for _, en := range h.entriesCopy() {
+		if en.Token != id {
+			continue
+		}
+		if en.Plugin == name {
+			entered = true
+		}
+		for k := victim + 1; k < len(w.Plugins); k++ {
+			if en.Plugin == w.Plugins[k].Name {
+				later = true
+			}
+		}
+	}
+	switch {
+	case later:
+		return "consumed"
+	case entered:
+		return "entered"
+	}
+	// not entered: certain to stay so only if part of the request is still in flight (what has already
+	// been delivered to the plugin's socket is still processed by the plugin)
+	if p := h.Plugs[name]; p != nil {
+		re := h.runtimeEnd(p)
+		if re.DeliveredBytes() < re.WrittenBytes() {
+			return "not-entered"
+		}
+	}
+	return "entered"
+}
+
+func c07Oracle(res *Result, w *C07W, h *H1, plugs []*Plug, outs []*c07Out, fired map[int]int, phase map[int]string, base *c07Transcript, treq time.Duration) {
 	n := len(w.Plugins)
 	entries := h.entriesCopy()
 	// status[p] per request
@@ -495,6 +538,19 @@ func c07Oracle(res *Result, w *C07W, h *H1, plugs []*Plug, outs []*c07Out, fired
 			case f.When == "during" && didFire && at == i:
 				status[v] = stMaybe
 				nontrivial = true
+				// peer death is instantaneous in both directions, so two of the three phases are exact:
+				// a reply the runtime has already moved on from must count; a request that had not
+				// reached the handler never will
+				if (f.Kind == "kill" || f.Kind == "reset") && !unsure[v] {
+					switch phase[i] {
+					case "consumed":
+						status[v] = stCounted
+						res.Probe("C07.during-fault-after-reply-consumed")
+					case "not-entered":
+						status[v], noEntry[v] = stExcluded, true
+						res.Probe("C07.during-fault-before-handler-entered")
+					}
+				}
 			case f.When == "offset":
 				nontrivial = true
 				// exact status from the healthy transcript (grid cases only)
